@@ -5,7 +5,7 @@ import concurrent.futures, json, os, re, subprocess, sys, time, shutil
 HERE = os.path.dirname(os.path.abspath(__file__))
 VERIF = os.path.dirname(HERE)
 M2C = os.path.join(VERIF, 'mir2c')
-BUILD = os.path.join(VERIF, 'build', 'mir')
+BUILD = os.path.join(os.environ.get('VERIF_BUILD_DIR') or os.path.join(VERIF, 'build'), 'mir')
 HARNESS = os.path.join(VERIF, 'harness')
 ENV = dict(os.environ, CARGO_NET_OFFLINE='true')
 
@@ -139,7 +139,7 @@ _bins = {}
 
 def replayer():
     if 'b' not in _bins:
-        tdir = os.path.join(VERIF, 'build', 'native-default')
+        tdir = os.path.join(os.environ.get('VERIF_BUILD_DIR') or os.path.join(VERIF, 'build'), 'native-default')
         out = {}
         for prof, flag in (('dev', []), ('release', ['--release'])):
             rc, o, dt = sh(['cargo', 'build', '--offline', '--bin', 'replay', '--target-dir', tdir] + flag, cwd=HARNESS, timeout=1800)
@@ -227,13 +227,39 @@ def run(prop, tier, spec, log, baseline=None, quiet=False):
             base = dict(scen=scen, n=n, m=m, faults=faults, gen=gen, unwind=unwind, order=spec.get('order', False), timeout=spec.get('timeout', {}).get(tier, 1800))
             jobs.append(dict(base, witness=False))
             jobs.append(dict(base, witness=True))
+    if tier == 'thorough' and spec.get('second_solver', True):
+        # second opinion: the small-capacity queries again with z3 as CBMC's back end; verdicts must agree
+        jobs += [dict(j, solver='--z3', timeout=1200) for j in list(jobs) if not j['witness'] and j['n'] <= 2 and j['scen'] not in ('ADD_MOD', 'SUB_MOD')]
     log('-- E2/mir2c config=%s: %d functions translated, %d CBMC queries' % (spec.get('tag', 'std'), len(info['functions']), len(jobs)))
     with concurrent.futures.ThreadPoolExecutor(max_workers=spec.get('workers', 14)) as ex:
         results = list(ex.map(cbmc_job, jobs))
     wit = {}
     replayed = 0
+    sat_verdict = {}
     for r in results:
         j = r['job']
+        if j.get('solver'):
+            continue
+        sat_verdict[(j['scen'], j['n'], j['m'], j['faults'], j['witness'])] = r['verdict']
+    agree = 0
+    for r in results:
+        j = r['job']
+        if not j.get('solver'):
+            continue
+        part['queries'] += 1
+        v0 = sat_verdict.get((j['scen'], j['n'], j['m'], j['faults'], j['witness']))
+        if r['verdict'] == 'error':
+            res['notes'].append('E2 second solver gave no verdict for %s N=%d (not counted)' % (j['scen'], j['n']))
+        elif r['verdict'] != v0:
+            res['broken'].append('E2 %s N=%d: SAT back end says %s, z3 says %s' % (j['scen'], j['n'], v0, r['verdict']))
+        else:
+            agree += 1
+    if agree:
+        part['second_solver'] = '%d queries repeated with cbmc --z3, same verdict' % agree
+    for r in results:
+        j = r['job']
+        if j.get('solver'):
+            continue
         key = '%s N=%d%s faults=%d%s' % (j['scen'], j['n'], (' M=%d' % j['m']) if j['scen'] == 'FROM_ARRAY' else '', j['faults'], ' witness' if j['witness'] else '')
         part['queries'] += 1
         unsupported_hit = [p for p in r['props'] if 'UNSUPPORTED' in p[2] and p[3] == 'FAILURE']
